@@ -445,7 +445,7 @@ def run(ctx):
     built = cybuild.build_many(specs, jobs=8 if quick else 12)
     for (so, err), sp in zip(built, specs):
         if err is not None:
-            ctx.corr_break("build " + sp["name"], sp["name"], str(err)[:1500], "module builds")
+            ctx.corr_break("build " + sp["name"], sp["name"], str(err)[-700:], "module builds")
             return
     for opname, mods, ns in plans:
         run_binop(ctx, model, opname, mods, fx, ns, full_beh_limit=0 if quick else 7)
